@@ -54,7 +54,28 @@ ASSUMPTIONS = {
            "the vertex, the pattern / format value and the attribute heap; getattr succeeds on every name dir() lists; re.compile returns a "
            "pattern object; cls.__mro__ is non-empty and starts with cls; user_render_func / str.format return (a str); option tables cover "
            "the classes of the graph (precondition WF); ''.join of the characters of s is s",
+    "A13": "nrpickler (C10): dill.Pickler.save / memoize and the file's write are not verified; save(obj) is abstracted as a token list "
+           "pk_body(obj, real events so far) fed in order to the overridden write / memoize / save and touching the queue only through "
+           "them (its control flow does not inspect the memo after a nested save returned: false for self-containing tuples, DESIGN.md 8 row "
+           "15); queue items are record values (nothing depends on their identity: checked syntactically); the instance layout set up by "
+           "__init__ (lazywrites list, write = lazywrite, realwrite = file.write) is checked syntactically, dill.Pickler.__init__ is not "
+           "verified; pk_exec is the functional reading of the deterministic big-step relation Exec of lean/Scheduler.lean",
     "ALLOC": "a freshly allocated object is distinct from and unreferenced by every existing object",
+}
+
+
+LEVELS = {"C10": "other"}
+PROBES = {"C10": [("c10_selfref.py", "self-containing-tuple"), ("c10_selfref.py", "class-by-value-with-super")]}
+EXPLANATIONS = {
+    "C10": "C10 is decided in two labelled parts. PROVED (obligations / discharged below): the work-list scheduler of _NonrecursivePickler - "
+           "lazywrite / lazymemoize / save against the three cases of applyTok, dump against 'the real events are the protocol header, the "
+           "depth-first left-to-right execution of [save obj], STOP; nothing pending afterwards' (two nested loop invariants over pk_exec; the "
+           "scheduler lemma exec_apply is checked by Lean, lean/Scheduler.lean), over an ASSUMED contract of dill.Pickler.save (a token list fed "
+           "to write / memoize / save in order); the syntactic layout conditions A13; and the cache plumbing of Vertex, whose contracts need "
+           "no statistics entry (usable after un-pickling into a fresh interpreter). BOUNDED, never counted as proved (bounded[] below): the round "
+           "trip itself - nrpickler.dumps, pickle.loads / dill.loads, protocols 0-5, structural isomorphism incl. sharing and detachment, the copy "
+           "queried and mutated with caching on after the class-level statistics were forgotten, chains of 700-1000 vertices with 80 frames of "
+           "head room - on random histories over the object pool",
 }
 
 
@@ -106,6 +127,8 @@ def bounded_search(pid, focus, budget_s, seed, repo_root, nproc=None):
             agg["histories"] += r.get("histories", 0)
             agg["distinct"] += r.get("distinct", 0)
             agg["calls_checked"] += r.get("calls_checked", 0)
+            for k_, v_ in (r.get("op_counts") or {}).items():
+                agg.setdefault("operations_run", {})[k_] = agg.setdefault("operations_run", {}).get(k_, 0) + v_
             if r.get("error"):
                 agg["errors"].append(r["error"])
             if r.get("failure") and failure is None:
@@ -296,6 +319,36 @@ def run_check(pid: str, tier: str, repo_root=None, seed=0):
             replay_paths.append(path)
             lines.append(f"VIOLATION property={pid} replay={path}")
             viol.append((None, None))
+    probe_report = []
+    if pid in PROBES:
+        # inputs on which an ASSUMED contract is known to be false (found while stating the assumption): replayed against the real code
+        import subprocess
+        from .extract import REPO as _REPO
+        for (script, pname) in PROBES[pid]:
+            path = os.path.join(VERIF, "probes", script)
+            try:
+                r_ = subprocess.run([sys.executable, path, repo_root or _REPO, pname], capture_output=True, text=True, timeout=90)
+                last = [l for l in r_.stdout.splitlines() if l.startswith("{")]
+                res_ = json.loads(last[-1]) if last else {"probe": pname, "outcome": "no-output", "detail": (r_.stderr or "")[-300:]}
+            except subprocess.TimeoutExpired:
+                res_ = {"probe": pname, "outcome": "hang", "detail": "probe process did not finish within 90 s"}
+            probe_report.append(res_)
+            if res_["outcome"] == "ok":
+                continue
+            kid = f"probe:{pname}"
+            if kid in known_ids and known_ids[kid].get("outcome") == res_["outcome"]:
+                known_seen.append(kid)
+                lines.append(f"KNOWN-FINDING: property={pid} {kid} {res_['outcome']}: {known_ids[kid].get('what', '')[:220]}")
+            else:
+                d_ = os.path.join(REPLAY_DIR, pid)
+                os.makedirs(d_, exist_ok=True)
+                rp = os.path.join(d_, f"probe_{sanitize(pname)}.py")
+                with open(rp, "w") as fh:
+                    fh.write(f'"""Replay of probe {pname} ({script}): outcome {res_["outcome"]} {res_.get("detail", "")!r}"""\n'
+                             f"import subprocess, sys\nsys.exit(subprocess.call([sys.executable, {path!r}, {(repo_root or _REPO)!r}, {pname!r}]))\n")
+                replay_paths.append(rp)
+                lines.append(f"VIOLATION property={pid} replay={rp}")
+                viol.append((None, None))
     undecided = list(dict.fromkeys(undecided))        # one line per function / obligation (shards repeat them)
     errors = list(dict.fromkeys(errors))
     for (n, why) in undecided:
@@ -313,8 +366,13 @@ def run_check(pid: str, tier: str, repo_root=None, seed=0):
     lean_line = (f"Lean lemma base /verif/lean ({', '.join(lst.get('files', []))}, sha256 {lst['sha256'][:12]}): "
                  + ("compiled without errors or sorry by " + lst.get("lean", "lean") if lst.get("ok") else
                     ("NOT compiled in this checkout: the rewrite rules are then assumed" if lst.get("ok") is None else "COMPILATION FAILED")))
+    level = LEVELS.get(pid, "proof")
+    expl = ("every obligation is a verification condition generated from the AST of the current /repo sources "
+            "against the sidecar contracts in /verif/contracts; loops are cut by invariants, calls by contracts; no bound")
+    if pid in EXPLANATIONS:
+        expl = EXPLANATIONS[pid] + " | " + expl
     ev = {
-        "property_id": pid, "tier": tier, "seed": seed, "level": "proof",
+        "property_id": pid, "tier": tier, "seed": seed, "level": level,
         "coverage": {
             "obligations": n_obl, "discharged": n_dis,
             "checker_cmd": f"python3-vt -m pyvc check {pid} --tier {tier}",
@@ -327,13 +385,18 @@ def run_check(pid: str, tier: str, repo_root=None, seed=0):
             "samples": samples,
             "undecided": [f"{n}: {w}" for n, w in undecided], "checker_errors": [f"{n}: {w}" for n, w in errors],
             "known_findings_seen": known_seen, "replays": replay_paths,
-            "bounded": bounded_report,
-            "explanation": "every obligation is a verification condition generated from the AST of the current /repo sources "
-                           "against the sidecar contracts in /verif/contracts; loops are cut by invariants, calls by contracts; no bound",
+            "bounded": bounded_report, "probes": probe_report,
+            "explanation": expl,
         },
         "assumptions": [f"{k}: {v}" for k, v in ASSUMPTIONS.items()],
         "wall_s": round(wall, 2), "violations": len(viol),
     }
+    if level != "proof":
+        # a level that rests partly on bounded exploration reports the exploration-style counts as well (measured by this run)
+        ev["coverage"]["evaluations"] = sum(b.get("histories", 0) for b in bounded_report)
+        ev["coverage"]["distinct_nontrivial"] = sum(b.get("distinct", 0) for b in bounded_report)
+        ev["coverage"]["rule"] = ("bounded part: histories of public-API operations over a small object pool (pyvc/bounded.py), generated at "
+                                  "random with heavy aliasing plus a small-scope systematic part; distinct = different operation sequences")
     os.makedirs(EVIDENCE_DIR, exist_ok=True)
     with open(os.path.join(EVIDENCE_DIR, f"{pid}.json"), "w") as fh:
         json.dump(ev, fh, indent=1)
